@@ -425,6 +425,9 @@ def run_case(space: Space, idx: int, case, R: Recorder) -> None:
 
 _SPACES: list[Space] = []
 _SEED = 0
+_VIOL_FLAG = None  # shared: some worker has recorded a violation
+_T0 = 0.0
+_SOFT_BUDGET = 0.0  # seconds; only ever cuts a run short AFTER a violation has been recorded (never on a clean tree)
 
 
 def _work(task):
@@ -433,21 +436,33 @@ def _work(task):
     R = Recorder(space.name, _SEED)
     signal.signal(signal.SIGALRM, _alarm)
     rot = _SEED % W
+    stopped = False
     try:
         for idx, case in enumerate(space.gen()):
             if (idx + rot) % W != k:
                 continue
+            if _VIOL_FLAG is not None and _VIOL_FLAG.value and _SOFT_BUDGET and time.time() - _T0 > _SOFT_BUDGET:
+                stopped = True  # a violation is already on record and the run is over budget: report what was covered
+                break
             run_case(space, idx, case, R)
+            if R.n_viol and _VIOL_FLAG is not None and not _VIOL_FLAG.value:
+                _VIOL_FLAG.value = 1
     except Exception:  # enumeration itself failed: harness bug
         return {"space": space.name, "harness_error": traceback.format_exc()}
-    return R.result()
+    res = R.result()
+    res["stopped_early"] = stopped
+    return res
 
 
 def explore(spaces: list[Space], seed: int, workers: int | None = None, log=print) -> dict:
     """Run every space to completion; returns merged per-space and total results."""
-    global _SPACES, _SEED
+    global _SPACES, _SEED, _VIOL_FLAG, _T0, _SOFT_BUDGET
     _SPACES = spaces
     _SEED = seed
+    _VIOL_FLAG = mp.get_context("fork").Value("i", 0)
+    _T0 = time.time()
+    tier = os.environ.get("VERIF_TIER", "quick")
+    _SOFT_BUDGET = float(os.environ.get("VERIF_SOFT_BUDGET_S", "") or (300 if tier == "quick" else 2400))
     W = workers or min(16, os.cpu_count() or 1)
     tasks = [(si, k, W) for si in range(len(spaces)) for k in range(W)]
     # rotate task order by seed (does not change what is explored)
@@ -472,6 +487,7 @@ def explore(spaces: list[Space], seed: int, workers: int | None = None, log=prin
             if m is None:
                 merged[name] = res
                 continue
+            m["stopped_early"] = bool(m.get("stopped_early")) or bool(res.get("stopped_early"))
             for key in ("evaluations", "transitions", "validated", "n_viol"):
                 m[key] += res[key]
             for key in ("states", "outcomes", "nontrivial"):
@@ -497,7 +513,7 @@ def explore(spaces: list[Space], seed: int, workers: int | None = None, log=prin
         m = merged.get(s.name)
         if m is not None:
             m["bounds"] = s.bounds
-            m["exhaustive"] = s.exhaustive
+            m["exhaustive"] = bool(s.exhaustive) and not m.get("stopped_early")
             m["n_states"] = len(m["states"])
             m["n_outcomes"] = len(m["outcomes"])
             m["n_nontrivial"] = len(m["nontrivial"])
